@@ -176,6 +176,11 @@ def enumerate_faults(tree, validated):
         for p in positions(len(idx)):
             mutate('format-mismatch:' + name, 'element %d' % (p + 1),
                    lambda t, i=idx[p]: (set_attr(t.kids[i], 'formatLabel', '0002'), set_attr(t.kids[i], 'formatDefinition', 'PCM')))
+            # the two pairs of values that both exist (0000/Undefined, 0001/PCM) and contradict each other
+            mutate('format-mismatch:%s/undefined-label-with-PCM' % name, 'element %d' % (p + 1),
+                   lambda t, i=idx[p]: (set_attr(t.kids[i], 'formatLabel', '0000'), set_attr(t.kids[i], 'formatDefinition', 'PCM')))
+            mutate('format-mismatch:%s/PCM-label-with-Undefined' % name, 'element %d' % (p + 1),
+                   lambda t, i=idx[p]: (set_attr(t.kids[i], 'formatLabel', '0001'), set_attr(t.kids[i], 'formatDefinition', 'Undefined')))
             mutate('format-missing:' + name, 'element %d' % (p + 1),
                    lambda t, i=idx[p]: (del_attr(t.kids[i], 'formatLabel'), del_attr(t.kids[i], 'formatDefinition')))
     # 5. an audioTrackUID references both a track format and a channel format
